@@ -49,6 +49,7 @@ type Harness struct {
 	ExpectIDs      []string
 	Outside        []string
 	Also           map[string]bool
+	Real           map[string]bool // functions executed from their real body although an intrinsic exists
 
 	EntryFn *ssa.Function
 
@@ -185,6 +186,10 @@ func (h *Harness) apply(d string) error {
 		h.EnvStepName = rest
 	case "expect":
 		h.ExpectIDs = append(h.ExpectIDs, strings.Fields(rest)...)
+	case "real":
+		for _, p := range strings.Fields(rest) {
+			h.Real[p] = true
+		}
 	case "also":
 		for _, p := range strings.Fields(rest) {
 			h.Also[p] = true
@@ -305,7 +310,7 @@ func LoadHarnessFiles(dir, prop string) ([]*Harness, map[string][]string, error)
 
 func newHarness() *Harness {
 	return &Harness{Tiers: map[string]bool{"quick": true, "thorough": true}, Profile: "bv",
-		Also: map[string]bool{}, Stubs: map[string]string{}, NoInit: map[string]bool{}, ForceInit: map[string]bool{}, Unwind: map[string]int{},
+		Also: map[string]bool{}, Real: map[string]bool{}, Stubs: map[string]string{}, NoInit: map[string]bool{}, ForceInit: map[string]bool{}, Unwind: map[string]int{},
 		MaxSteps: 50_000_000, MaxPaths: 200000, MaxForkDepth: 4000,
 		assumptions: map[string]bool{}, stubUsed: map[string]bool{}}
 }
@@ -331,6 +336,9 @@ func (h *Harness) clone() *Harness {
 	}
 	c.PermuteMaps, c.NoMerge, c.ExactAppendCap, c.AllowPanic = h.PermuteMaps, h.NoMerge, h.ExactAppendCap, h.AllowPanic
 	c.MaxSteps, c.MaxPaths, c.MaxForkDepth, c.EnvStepName = h.MaxSteps, h.MaxPaths, h.MaxForkDepth, h.EnvStepName
+	for k, v := range h.Real {
+		c.Real[k] = v
+	}
 	c.ExpectIDs = append(c.ExpectIDs, h.ExpectIDs...)
 	c.Outside = append(c.Outside, h.Outside...)
 	return c
